@@ -83,11 +83,11 @@ async def scenario(starts, mode, missing=frozenset(), zeros=False):
     return None
 
 
-async def scenario_3phase(lags, max_size):
-    """The real FormulaEngine3Phase over three real single-metric FormulaEngines.  All phases START on the same
-    timestamp (phases starting on different timestamps are the known finding C06-3phase-unaligned-start and are not
-    generated here); phase i is DELIVERED lags[i] steps behind; the consumer subscribes with buffer size max_size and
-    reads concurrently.  Every 3-phase sample stamped T must carry the three phase values stamped T, none skipped."""
+async def scenario_3phase(lags, max_size, starts=(0, 0, 0)):
+    """The real FormulaEngine3Phase over three real single-metric FormulaEngines.  Phase i STARTS at step starts[i]
+    and is DELIVERED lags[i] steps behind; the consumer subscribes with buffer size max_size and reads concurrently.
+    From the latest first timestamp on, every 3-phase sample stamped T must carry the three phase values stamped T,
+    none skipped."""
     from frequenz.channels import Broadcast
     from frequenz.quantities import Quantity
     from frequenz.sdk.timeseries import Sample
@@ -114,7 +114,7 @@ async def scenario_3phase(lags, max_size):
     for tick in range(n + max(lags)):
         for i in range(3):
             step = tick - lags[i]
-            if 0 <= step < n:
+            if starts[i] <= step < n:
                 await senders[i].send(Sample(T0 + timedelta(seconds=step), Quantity(val(i, step))))
                 for _ in range(12):     # one sample at a time: engine, 3-phase task and consumer all get to run
                     await asyncio.sleep(0)
@@ -125,8 +125,9 @@ async def scenario_3phase(lags, max_size):
     for e in engines:
         await e._stop()  # pylint: disable=protected-access
     stamps = [int((s.timestamp - T0).total_seconds()) for s in got]
-    if stamps != list(range(n)):
-        return f"3-phase samples stamped steps {stamps} were emitted, demanded {list(range(n))} (none skipped, in order)"
+    if stamps != list(range(max(starts), n)):
+        return (f"3-phase samples stamped steps {stamps} were emitted, demanded {list(range(max(starts), n))} (from the "
+                f"latest first timestamp on, none skipped, in order)")
     for s, step in zip(got, stamps):
         vals = [None if v is None else v.base_value for v in (s.value_p1, s.value_p2, s.value_p3)]
         want = [val(i, step) for i in range(3)]
@@ -219,16 +220,20 @@ def run(req):
             if f:
                 failure = (f, {"first_steps": list(starts), "delivery": mode, "missing (stream, step)": sorted(missing),
                                "nones_are_zeros": zeros})
-    for lags, max_size in [(l, m) for l in itertools.product((0, 1, 4), repeat=3) for m in (1, 2, 50)]:
+    three_phase = [(l, m, (0, 0, 0)) for l in itertools.product((0, 1, 4), repeat=3) for m in (1, 2, 50)]
+    three_phase += [(l, 50, st) for st in itertools.product(range(3), repeat=3) if st != (0, 0, 0)
+                    for l in ((0, 0, 0), (0, 1, 4), (4, 0, 1))]
+    for lags, max_size, starts in three_phase:
         if failure:
             break
         evaluations += 1
         try:
-            f = asyncio.run(scenario_3phase(lags, max_size))
+            f = asyncio.run(scenario_3phase(lags, max_size, starts))
         except Exception as e:  # pylint: disable=broad-except
             f = f"3-phase scenario raised {type(e).__name__}: {e}"
         if f:
-            failure = (f, {"three_phase_delivery_lags": list(lags), "consumer_max_size": max_size})
+            failure = (f, {"three_phase_first_steps": list(starts), "three_phase_delivery_lags": list(lags),
+                           "consumer_max_size": max_size})
     for lags in itertools.product((0, 1, 4), repeat=3):
         if failure:
             break
@@ -246,8 +251,9 @@ def run(req):
                    "(pre-buffered, interleaved with loop iterations, burst per step, consumer subscribing after the data); "
                    "8 steps per stream; 27 first-step combinations x 2 delivery modes x nones_are_zeros on/off x one None sample "
                    "(first or second sample of one stream): the output is None exactly when an input of ITS timestamp is "
-                   "missing (else the missing input counts 0); plus the 3-phase engine over three single-metric engines with a common first "
-                   "timestamp: 27 delivery lags (0/1/4 steps per phase) x consumer buffer sizes 1/2/50, 6 steps; plus the composed formula (a + b) + c built with the operator "
+                   "missing (else the missing input counts 0); plus the 3-phase engine over three single-metric engines: 27 delivery lags (0/1/4 steps per "
+                   "phase) x consumer buffer sizes 1/2/50 with a common first timestamp, and the 26 unaligned first-step "
+                   "combinations 0..2 x 3 lag patterns, 6 steps; plus the composed formula (a + b) + c built with the operator "
                    "API over three single-metric engines, 27 delivery lags; all cases distinct"}
     if failure:
         out["failure"] = {"clause": "every sample is computed from inputs of its own timestamp; timestamps consecutive", "detail": failure[0]}
